@@ -399,7 +399,7 @@ theorem step_live (c : Cur) (r : Rd) (op : ROp) (habs : Abs c r) (hs : r.Small o
     simp [Rd.step, hn, liveOk, this]
   | release e =>
     have := release_frame r
-    exact ⟨by simpa [Rd.step] using hl.frame this.1 this.2, by simp [liveOk]⟩
+    exact ⟨by simpa [Rd.step, Rd.releaseE] using hl.frame this.1 this.2, by simp [liveOk]⟩
   | readLen =>
     exact ⟨by simpa [Rd.step] using hl, by simp [liveOk]⟩
 
